@@ -269,7 +269,7 @@ impl World {
                 let index = self.conns.len();
                 self.conns.push(ConnInfo {
                     index, open_step: step.index, open_time: step.time_ms, deadline_ms: *deadline_ms, close_step: None, close_time: None,
-                    emitted_decoder: rf::StreamDecoder::new(v5), emitted_bytes: 0, written_bytes: 0, emitted: Vec::new(), written_count: 0,
+                    emitted_decoder: { let mut d = rf::StreamDecoder::new(v5); d.compat = true; d }, emitted_bytes: 0, written_bytes: 0, emitted: Vec::new(), written_count: 0,
                     inbound_decoder: { let mut d = rf::StreamDecoder::new(v5); d.lenient = true; d }, inbound: Vec::new(), inbound_bytes: 0, connack: None, connack_step: None, connack_time: None,
                     first_error: None, disconnect_emitted_at: None, emit_log: Vec::new(),
                 });
@@ -305,6 +305,10 @@ impl World {
                         let framed = conn.emitted_decoder.feed(&step.emitted);
                         if let Some(e) = &conn.emitted_decoder.error {
                             if delta.emitted_decode_error.is_none() { delta.emitted_decode_error = Some(e.clone()); }
+                        }
+                        if let Some(e) = conn.emitted_decoder.soft_errors.pop() {
+                            conn.emitted_decoder.soft_errors.clear();
+                            if delta.emitted_decode_error.is_none() { delta.emitted_decode_error = Some(e); }
                         }
                         let mut new_packets = Vec::new();
                         for f in framed {
